@@ -604,8 +604,9 @@ func TestVerif_C28(t *testing.T) {
 		"autocommit sessions only in this part (DDL commits implicitly)",
 		"DROP TABLE on one branch re-establishes the sequence from the tables left on the other branches (documented in SequenceTracker.DropRelation), so ids that lived only in the dropped table may be handed out again; the oracle's lower bound follows that rule. ALTER TABLE … AUTO_INCREMENT=n and TRUNCATE are not generated",
 		"no explicit ids in this part",
-		"not generated: dolt_branch from a head that still has the table while every working set has dropped it (observed on the unmodified tree: the first generated INSERT on that branch fails with 'autoIncrementTracker: unable to find sequence for table a')")
+		"known finding C28-drop-lowers-sequence-below-head-rows (open): while listed, dolt_branch from a head that still holds the table with ids above the sequence lowered by a DROP TABLE (or after the sequence was forgotten because no working set has the table) is not generated; counted in excluded_known")
 	defer recDDL.Write(t)
+	t.Run("pinned_drop_lowers_sequence_below_head_rows", func(t *testing.T) { c28PinnedHeadRows(t, srv, admin) })
 	vh.Check(t, "ddl", 120, 250, func(rt *rapid.T) { c28DDLRun(rt, srv, admin, recDDL) })
 	// a small dose of the goroutine race variant (generated bulk inserts against explicit ids placed
 	// at the live sequence), so that the quick tier has some chance at intra-statement races too
